@@ -61,7 +61,7 @@ func (c *Ctx) cod1(which map[string]bool) {
 		// wrap adjustments in AdoptSession: every "+= publishIDMask+1"
 		if ad := c.Fn("COD-1", "AdoptSession"); ad != nil {
 			n := 0
-			for _, b := range ad.Blocks {
+			for _, b := range c.regionBlocks(ad) {
 				for _, ins := range b.Instrs {
 					bo, ok := ins.(*ssa.BinOp)
 					if !ok || bo.Op != token.ADD {
@@ -832,7 +832,7 @@ func (c *Ctx) cod3Suback(hs map[string]*ssa.Function) {
 	each := c.acc("COD-3", fn, "SubscribeError-lists-exactly-the-filters-with-code-0x80")
 	// the failure counter: an int phi (0; +1)
 	var failN *ssa.Phi
-	for _, b := range fn.Blocks {
+	for _, b := range c.regionBlocks(fn) {
 		for _, ins := range b.Instrs {
 			phi, ok := ins.(*ssa.Phi)
 			if !ok || phi.Type().String() != "int" {
@@ -928,6 +928,12 @@ func (c *Ctx) cod3Suback(hs map[string]*ssa.Function) {
 		return ok && bl.Name() == "append" && strings.HasSuffix(e.Call.Args[0].Type().String(), "SubscribeError")
 	}
 	for _, h := range helpers {
+		hColl := map[*ssa.BasicBlock]bool{}
+		for _, p := range c.Paths("COD-3", h) {
+			if p.End == pathx.KLoopBack && p.Events[len(p.Events)-1].Target == p.Start && p.Index(0, isSubErrAppend) >= 0 {
+				hColl[p.Start] = true
+			}
+		}
 		for _, p := range c.Paths("COD-3", h) {
 			for i := range p.Events {
 				if isSubErrAppend(&p.Events[i]) {
@@ -938,7 +944,7 @@ func (c *Ctx) cod3Suback(hs map[string]*ssa.Function) {
 					}
 				}
 			}
-			if p.End == pathx.KLoopBack && p.Events[len(p.Events)-1].Target == p.Start {
+			if p.End == pathx.KLoopBack && hColl[p.Start] && p.Events[len(p.Events)-1].Target == p.Start {
 				yes, _ := is80(p, len(p.Events))
 				if yes && p.Index(0, isSubErrAppend) < 0 {
 					each.fail(p, len(p.Events)-1, "an iteration that saw return code 0x80 does not add the filter to the SubscribeError")
@@ -948,11 +954,38 @@ func (c *Ctx) cod3Suback(hs map[string]*ssa.Function) {
 			}
 		}
 	}
+	// the collection loop: the one whose iterations can append to the SubscribeError
+	collHeaders := map[*ssa.BasicBlock]bool{}
 	for _, p := range c.Paths("COD-3", fn) {
-		choice := phiChoices(p, fn)
+		if p.End == pathx.KLoopBack && p.Events[len(p.Events)-1].Target == p.Start && p.Index(0, isSubErrAppend) >= 0 {
+			collHeaders[p.Start] = true
+		}
+	}
+	for _, p := range c.Paths("COD-3", fn) {
+		choice := phiChoicesAll(p)
+		binds := pathBindings(p)
+		isFailN := func(v ssa.Value) bool {
+			v = stripConv(v)
+			for d := 0; d < 6; d++ {
+				if v == ssa.Value(failN) {
+					return true
+				}
+				b, ok := binds[v]
+				if !ok || b == v {
+					break
+				}
+				v = stripConv(b)
+			}
+			return v == ssa.Value(failN)
+		}
 		// counting: an iteration of the validation loop (back edge into failN's block)
 		if p.End == pathx.KLoopBack && p.Events[len(p.Events)-1].Target == failN.Block() && p.Start == failN.Block() {
-			latch := p.Blocks[len(p.Blocks)-1]
+			var latch *ssa.BasicBlock
+			for _, ab := range p.AllBlocks {
+				if ab.Parent() == failN.Parent() {
+					latch = ab
+				}
+			}
 			var next ssa.Value
 			for i, pb := range failN.Block().Preds {
 				if pb == latch {
@@ -986,11 +1019,11 @@ func (c *Ctx) cod3Suback(hs map[string]*ssa.Function) {
 			if e.Kind == pathx.KSend && e.Val != nil && strings.HasSuffix(unwrapIface(e.Val).Type().String(), "SubscribeError") {
 				nz := false
 				for _, cm := range assumed(p, 0, i) {
-					if stripConv(cm.X) == ssa.Value(failN) && isK(cm.Y, 0) && cm.Op == token.NEQ {
+					if isFailN(cm.X) && isK(cm.Y, 0) && cm.Op == token.NEQ {
 						nz = true
 					}
 				}
-				if nz || p.Start != fn.Blocks[0] && p.Start != failN.Block() {
+				if nz || p.Start != fn.Blocks[0] && p.Start != failN.Block() && p.Start.Parent() == failN.Parent() {
 					rep.pass()
 				} else {
 					rep.fail(p, i, "a SubscribeError is sent on a path that has not established a non-zero failure count")
@@ -1006,7 +1039,7 @@ func (c *Ctx) cod3Suback(hs map[string]*ssa.Function) {
 				}
 				zero, decided := false, false
 				for _, cm := range assumed(p, 0, i) {
-					if stripConv(cm.X) == ssa.Value(failN) && isK(cm.Y, 0) {
+					if isFailN(cm.X) && isK(cm.Y, 0) {
 						decided = true
 						zero = cm.Op == token.EQL
 					}
@@ -1033,7 +1066,7 @@ func (c *Ctx) cod3Suback(hs map[string]*ssa.Function) {
 			}
 		}
 		// an iteration of the collection loop that saw 0x80 appends
-		if p.End == pathx.KLoopBack && p.Start != failN.Block() && p.Start != fn.Blocks[0] && p.Events[len(p.Events)-1].Target == p.Start {
+		if p.End == pathx.KLoopBack && collHeaders[p.Start] && p.Events[len(p.Events)-1].Target == p.Start {
 			yes, _ := is80(p, len(p.Events))
 			app := p.Index(0, func(e *pathx.Event) bool {
 				if e.Kind != pathx.KCall || e.Call == nil {
